@@ -61,4 +61,71 @@ CLAIMS = {
    note=COMMON_NOTE + "For decimal ticks the property's own hedge applies and the monitor uses a 1e-9 relative tolerance."),
 }
 
+S_NOTE = (COMMON_NOTE + "Level S: the runner's random decisions (permutations, draws), the agents' batches and the delivered fundamental values are "
+          "explicit input tapes of the model, recorded from the real run (recording random.Random that delegates to a plain generator; scripted agents; "
+          "wrapped fundamentals); theorems quantify over all tapes. Ground-truth events are taken by wrapping the market's own methods on the instances. ")
+
+CLAIMS.update({
+ "C05": dict(level="proof", suites=["S"], design="5/C05",
+   technique="Coq invariant lifted over the whole run (SimLift.run_pres) + arithmetic conservation lemma + differential correspondence of holdings at every callback and step end",
+   text="Theorems C05_* (props/C05.v): for every configuration, runner tape, agent behaviour and fundamental path the final holdings are the endowment folded, in order, "
+        "with exactly the run's fills, and this identity holds after every atomic update (so nothing else changes holdings and each round is applied once, before notifying); "
+        "one fill conserves total cash and every market's total shares (self-trades included). The Level-S model is run against the real SequentialRunner on generated "
+        "simulations every run; holdings are compared at every callback and step end; a monitor written from the property text recomputes the fold from the ground-truth fills.",
+   note=S_NOTE),
+ "C09": dict(level="proof", suites=["S"], design="5/C09",
+   technique="Coq run-level invariant (execution switch vs configuration vs halt memory) via SimLift + local theorems on round dispatch and consultation caps + differential correspondence",
+   text="Theorems C09_* (props/C09.v): every fill of every run lies in a round on its own market, on a running market, in a session CONFIGURED with execution - for every set of events "
+        "(trading halts included); a round follows an accepted request iff the session's switch is on; without placement the order phase is skipped; collect keeps at most maxNormalOrders "
+        "non-empty batches along one walk of the permuted agents. The consultation stream (who is asked, in which phase), the rounds and the switches are compared with the real runner on "
+        "every generated simulation; the monitor checks caps, at-most-once, HFT phases (rate 0 and 1), and round-follows-request against the switch seen at the callback.",
+   note=S_NOTE + "'In random order' and 'with the configured probability' are properties of random.Random (oracle): the model says which draw decides what."),
+ "C10": dict(level="proof", suites=["S"], design="5/C10",
+   technique="Coq invariant produced = delivered ++ pending lifted over the whole run + differential correspondence of the delivery stream",
+   text="Theorems C10_* (props/C10.v): in every normally ending run the sequence of order/cancel/fill/expiry records delivered to the logger equals the sequence the markets produced "
+        "(same records, same order, each once); the invariant produced = delivered ++ pending holds after every atomic update; every boundary record flushes. "
+        "The delivery stream of a recording Logger subclass (process_* calls incl. simulation/session/step begin-end records) is compared with the model on every generated run; "
+        "the monitor compares deliveries with ground-truth events taken at the market's own methods.",
+   note=S_NOTE),
+ "C11": dict(level="proof", suites=["S"], design="5/C11",
+   technique="Coq local theorems (per fill / per round) + differential correspondence of the callback stream + monitor against ground truth; run-level closed form not proved (partial)",
+   text="Theorems C11_* (props/C11.v): the notification of a fill emits the buyer's callback then the seller's with that fill's record (twice to one agent for a self-trade) and changes no holdings; "
+        "holdings are updated for the whole round before the first notification. The exactly-once / no-third-party claim over whole runs is decided by the correspondence of every callback event "
+        "(agent, kind, record, holdings at that moment) with the model and by the monitor (callbacks vs ground-truth acceptances and fills as multisets and in order).",
+   note=S_NOTE),
+ "C13": dict(level="proof", suites=["S"], design="5/C13",
+   technique="Coq proof of dispatch exactness (multiset equality) for every hook table + invariance of the table over the run + differential correspondence of probe hook calls",
+   text="Theorems C13_* (props/C13.v): for every occurrence the invoked hooks are, as a multiset, exactly the registered hooks of that kind/phase whose time list is absent or contains the time; "
+        "always-hooks precede timed hooks; repeated time entries do not duplicate; the table is fixed during any run. Probe events with random hook specs (all kinds, time lists with repeats, "
+        "instance and class filters) record every call; the stream is compared with the model and the monitor recomputes the expected calls from ground-truth occurrences.",
+   note=S_NOTE),
+ "C14": dict(level="proof", suites=["S"], design="5/C14",
+   technique="Coq local theorems on the shocks' registration and effect + differential correspondence + monitor recomputing expected acceptances and fundamentals",
+   text="Theorems C14_* (props/C14.v): an order-mistake shock leaves orders for other markets and all orders after it is spent unchanged, and rewrites the first target order to the configured "
+        "limit order at market price x (1+rate), buying iff rate > 0; shocks register hooks exactly for trigger = own session start + offset (window steps, target instance); session starts accumulate; "
+        "the fundamental shock scales exactly the target's fundamental at the current time. Whole runs with shocks in any session, 1-3 markets, are compared with the model; the monitor checks every "
+        "step's fundamental against delivered x product of active shocks and every accepted order against its request.",
+   note=S_NOTE + "Dyadic rates and constant fundamentals (volatility 0) make every float operation exact."),
+ "C15": dict(level="proof", suites=["S"], design="5/C15",
+   technique="Coq proof over Q of the clipping band (+ tick rounding) and of the non-target pass-through + differential correspondence + monitor",
+   text="Theorems C15_* (props/C15.v): the clipped price lies in [p0(1-r), p0(1+r)]; inside prices and market orders pass unchanged; orders for non-target markets pass unchanged without failure; "
+        "after tick rounding the accepted price is within the band widened by one tick. Every accepted order of generated runs (prices far outside / on the edge / inside) is compared with the model "
+        "and with the monitor's own clip+round.",
+   note=S_NOTE + "Order-mistake shocks and user hooks dispatched after the rule can rewrite the price again; that is outside C15's quantifier (DESIGN 5/C15)."),
+ "C16": dict(level="proof", suites=["S"], design="5/C16",
+   technique="Coq run-level theorem (fills only in rounds on running markets) + local theorems on halt decision / hold / resume + differential correspondence + schedule monitor",
+   text="Theorems C16_* (props/C16.v): no fill on a market that is not running (market level and for every run); the halt fires at once when |p0 - price| >= |p0 x rate x (halts+1)| on a running target, "
+        "does nothing otherwise; the market stays stopped until the clock passes halt time + length and resumes at the step after if its session is still current; orders are accepted while stopped. "
+        "Running flags and switches at every step record are compared with the model; the monitor simulates the schedule from the property text.",
+   note=S_NOTE),
+ "C17": dict(level="proof", suites=["S"], design="5/C17",
+   technique="Coq proof that the computed index is the share-weighted average for any components + differential correspondence (1e-9 relative on the float division) + monitor + setup validation check",
+   text="Theorems C17_* (props/C17.v): the index value / recorded fundamental is (sum value_i x shares_i)/(sum shares_i) over the components, for any number of components and unequal shares; "
+        "index markets are stepped after all plain markets. Runs with an index over 2-3 components are compared with the model; the monitor recomputes both averages from the components' values at "
+        "the same moment / delivered at the tick; duplicate components and missing outstanding shares must be rejected at setup.",
+   note=S_NOTE),
+})
+CLAIMS["C06"]["suites"] = ["M", "S"]
+CLAIMS["C04"]["suites"] = ["M", "S"]
+
 NOT_CLAIMED = {}
